@@ -313,8 +313,7 @@ def classify_despawn(prog, body, b, t, n2):
                 elif nm in ("ReactorHandle::sys_command", "AutoDespawnSignal::entity"):
                     c = None
             elif o[0] == "arg":
-                fn = bd.raw.get("name")
-                if fn == "try_cleanup_data_entity" and o[1] == 2:
+                if _release_helper_path(prog) == bd.path and o[1] == 2:
                     c = "payload-entity"
                 elif bd.kind == "closure" and o[1] == 1 and "::once::" in bd.path:
                     c = "once-reactor-own-id" if once_entity_is_fresh(prog, bd, o) else None
@@ -324,6 +323,18 @@ def classify_despawn(prog, body, b, t, n2):
     if len(classes) == 1 and None not in classes:
         return classes.pop(), "; ".join(details)
     return None, "; ".join(details) or "unknown"
+
+
+_RH = {}
+
+
+def _release_helper_path(prog):
+    if id(prog) not in _RH:
+        try:
+            _RH[id(prog)] = A.release_helper(prog).path
+        except mir.AnchorLost:
+            _RH[id(prog)] = None
+    return _RH[id(prog)]
 
 
 def once_entity_is_fresh(prog, cbody, o):
